@@ -125,6 +125,36 @@ CLAIMED = {
         note="Partial: arbitrary (non-prefix) declare-before-use-closed subsets need a frame lemma that is exercised but not proved.",
         technique="Lean 4 proof (split-equivalence by induction over the module tree) + split-vs-single differential check",
         ref="DESIGN.md section 8, C20"),
+    "C03": dict(
+        text="Lean theorems: `Cpp.cppEnc`/`Cpp.cppDec` model the generated Encode/Decode members (same composition over the type tree as the "
+             "template, every scalar through Buffer::PushWord's bit loop on a possibly signed carrier and Buffer::GetWord's bit loop, XOR/subtract "
+             "sign extension with its 64-bit exception, cast to the carrier). Proved for all types and in-range values: encoder bytes = canonical "
+             "bytes = Python codec bytes; decoder = canonical decoder on every bit string; round trip; carrier is the least standard width >= n; "
+             "sign extension = two's complement for every 1<=n<=c<=64; enum width minimal. Tie: schemas over every type constructor generated with "
+             "fcp_cpp, compiled with g++ -std=c++17 (ASan+UBSan) with a generic JSON driver, encoder bytes vs model, decoder vs value, plus one schema "
+             "with every width 1..64 at its boundary values and the carrier/enum-width functions exhaustively on 1..64 / around powers of two.",
+        note="'compiles as C++17' is decided by g++ on the sampled schemas, not by a theorem; services (rpc) only compile-checked; values travel "
+             "as JSON (no infinities/NaN); decode of truncated input is outside the property and not modelled.",
+        technique="Lean 4 proof (refinement of the generated codec to the canonical wire format) + compiled-code differential check",
+        ref="DESIGN.md section 8, C03"),
+    "C13": dict(
+        text="Lean theorems: run-time decoder `Cpp.dynDec` (shared bit cursor, int64 cast) = static decoder on every bit string and every supported "
+             "type; run-time encoder `Cpp.dynEnc` (fresh buffer per piece, whole bytes appended) = static encoder on byte-granular types "
+             "(C13_encode_same_partial) with the kernel-checked counterexample {a:u3,b:u5} for the rest (recorded finding); enum width formula "
+             "ceil(log2(max+1)) = static width. The reflection link is C12. Tie: one process loads the reflection binary produced by the Python tool "
+             "and answers static and run-time encode/decode for the same values; sub-byte run-time encodings must equal the whole-byte model.",
+        note="encode half is partial: the full statement is false of the current code (finding dynamic-encode-not-bit-packed, not repaired: it "
+             "needs one shared Buffer threaded through all Encode* functions). Enumerators named vs numbered handled in the JSON glue.",
+        technique="Lean 4 proof (decoder equality; encoder equality on byte-granular types + counterexample) + compiled-code differential check",
+        ref="DESIGN.md section 8, C13"),
+    "C18": dict(
+        text="Lean theorems over `Cpp.encodeFrame`/`Cpp.decodeFrame` (first matching binding, strnlen bus tag, zero-padded 8-byte data): frame = "
+             "(bus padded, id, number of canonical bytes, bytes padded); decode(encode) = (name, value) for distinct names and (id, bus) keys; "
+             "unmatched (id, bus) -> unknown; static = run-time for decoding. Tie: compiled static and run-time CAN wrappers (ASan+UBSan) vs the "
+             "Lean frame model on encodes, decodes of matching frames and of frames with altered id / bus / bus prefix.",
+        note="run-time encode inherits C13's finding on sub-byte payloads; bindings without a bus are outside the property.",
+        technique="Lean 4 proof (frame model: lookup + padding lemmas + codec round trip) + compiled-code differential check",
+        ref="DESIGN.md section 8, C18"),
     "C12": dict(
         text="Lean theorems: `reflect` models FcpV2.reflection() and every reflection() method (flattened type chains, str(value) of extension values, "
              "optional unit/range/meta); whenever the record fits the reflection schema (wf reflTy, decidable) the Python codec round trip returns it "
